@@ -49,6 +49,7 @@ def run_ref(spec: dict) -> dict:
     table = {}
     arrays = {}
     lines: dict = {}
+    messages: dict = {}  # key -> {"type", "message", "raised_in_harness_code"} for operations that raised
     tracer = _LineTracer() if spec.get("trace_lines") else None
     for key in spec["ops"]:
         op = cat.ops[key]
@@ -64,12 +65,23 @@ def run_ref(spec: dict) -> dict:
             arrays[key] = W.flatten_tree(out)
         except Exception as e:  # noqa: BLE001
             table[key] = ["raised", type(e).__name__]
+            tb = e.__traceback__
+            while tb is not None and tb.tb_next is not None:
+                tb = tb.tb_next
+            innermost = tb.tb_frame.f_code.co_filename if tb is not None else ""
+            messages[key] = {
+                "type": type(e).__name__,
+                "message": str(e)[:400],
+                # an exception raised *by a statement of the harness itself* (a call whose signature no longer fits,
+                # a missing attribute) is API drift or a harness defect, not an observation about the library
+                "raised_in_harness_code": os.path.dirname(os.path.abspath(innermost)) == os.path.dirname(os.path.abspath(__file__)) and type(e).__name__ != "ModelMismatch",
+            }
     if spec.get("arrays_out"):
         with open(spec["arrays_out"], "wb") as f:
             pickle.dump(arrays, f)
     if tracer:
         tracer.close()
-    return {"session": _session(), "table": table, "lines": lines, "gaps": W.coverage_gaps(cat), "n_catalogue": len(cat.ops)}
+    return {"session": _session(), "table": table, "lines": lines, "messages": messages, "gaps": W.coverage_gaps(cat), "n_catalogue": len(cat.ops)}
 
 
 class _LineTracer:
@@ -203,7 +215,7 @@ def _run_one_plan(pj, spec, cat, seams, root, exclude, reference, load_arrays):
         if status == "session-leak":
             m["severity"], m["why"] = "beyond", f"library code left the process-wide precision session changed ({dig}) after this operation; the simulator had set x64={x64}"
         elif status != want[0] or status == "raised":
-            m["severity"], m["why"] = "beyond", f"status {status}:{dig[:40]} vs {want[0]}:{want[1][:40]}"
+            m["severity"], m["why"] = "beyond", f"status {status}:{dig[:40]} vs {want[0]}:{want[1][:40]}" + (f" -- {leaves}" if isinstance(leaves, str) else "")
         else:
             ref_leaves = load_arrays(x64).get(key)
             why = compare_leaves(leaves, ref_leaves) if (leaves is not None and ref_leaves is not None) else "bitwise digest differs (no arrays kept for tolerance comparison)"
